@@ -2,6 +2,14 @@
 
 package providers
 
+import "net/http"
+
 // VerifCacheOf exposes the Cache a GroupCache was built with (the real groups.LocalCache made by
 // NewGroupCache) so that the C17 driver can call its exported Get / Purge.
 func VerifCacheOf(p *GroupCache) Cache { return p.cache }
+
+// VerifSetHTTPTransport replaces the package's HTTP client by one that uses the given transport
+// and has no wall-clock timeout.  The C17 driver installs an in-memory transport for the Cognito
+// userInfo endpoint, so that no socket, dial timeout or 5 s client timeout can turn machine load
+// into a failed profile lookup (the HTTP transport is outside the property).
+func VerifSetHTTPTransport(rt http.RoundTripper) { httpClient = &http.Client{Transport: rt} }
